@@ -465,6 +465,7 @@ func (r *yieldRewriter) rewriteSwitchStmt(
 			x,
 			body,
 		)
+		children = r.combineIfNecessary(children) // init may have frozen children
 		children.push(switchStmt, kindTrival)
 		return children
 	}
